@@ -298,13 +298,13 @@ def main():
         for ch in engine.chunks(list(range(1, K + 1)), 25):
             shards.append((w, ch, [0], dl))
     engine.phase(ck, 'every single failing request k = 1..K of every workload', shard, shards, workloads=len(W), requests=sum(counts.values()))
-    if not quick:
-        shards = []
-        for w, K in counts.items():
-            if K <= 160:
-                for k in range(1, K + 1):
-                    shards.append((w, [k], list(range(k + 1, K + 1)), dl))
-        engine.phase(ck, 'pairs of failing requests for workloads with K <= 160', shard, shards)
+    lim = 160 if quick else 100000
+    shards = []
+    for w, K in counts.items():
+        if K <= lim:
+            for k in range(1, K + 1):
+                shards.append((w, [k], list(range(k + 1, K + 1)), dl))
+    engine.phase(ck, 'pairs of failing requests (k, k2) for workloads with K <= %d' % lim, shard, shards)
     ck.assumptions = ['only allocation requests issued by confuse.c count ("library source proper"); requests from the scanner file (flex runtime and the '
                       'string scratch buffer in lexer.l) are out of scope by the property\'s own text',
                       'setter-like calls without a failure value (callback / filter registration) are judged through the epilogue only']
